@@ -606,12 +606,19 @@ fn script_acks(rng: &mut Rng, _tier: Tier, ex: &mut dyn FnMut(&str) -> String) {
 // ---------------------------------------------------------------------------------------------
 // E2 huge: 70 000 tiny messages queued at once (ids run more than 65 536 ahead of a missing one)
 // ---------------------------------------------------------------------------------------------
-fn script_huge(rng: &mut Rng, _tier: Tier, ex: &mut dyn FnMut(&str) -> String) {
+fn script_huge_u(rng: &mut Rng, tier: Tier, ex: &mut dyn FnMut(&str) -> String) {
+    script_huge(rng, tier, ex, 1)
+}
+
+fn script_huge_o(rng: &mut Rng, tier: Tier, ex: &mut dyn FnMut(&str) -> String) {
+    script_huge(rng, tier, ex, 2)
+}
+
+fn script_huge(_rng: &mut Rng, _tier: Tier, ex: &mut dyn FnMut(&str) -> String, ch: u8) {
     ex(&cfg_line(600_000, &default_chans(), &default_chans()));
     ex("cli 0");
     ex("add 100");
     ex("setc 0");
-    let ch = rng.pick(&[1u8, 2]);
     let total = 70_000u64;
     ex(&format!("sendn c0 {} {} 7", ch, total));
     let mut next = 0usize;
@@ -1666,12 +1673,22 @@ pub fn profiles() -> Vec<Profile> {
         fixed: Some(sweep_acks_ops),
     },
     Profile {
+        name: "rn-huge-o",
+        props: &["C01"],
+        cases: |t| if t == Tier::Quick { 0 } else { 1 },
+        new_world,
+        script: script_huge_o,
+        nontrivial: |t| t.outs.iter().any(|o| o.starts_with("msgs ") && !o.starts_with("msgs 0 ")),
+        keep: keep_cfg,
+        fixed: None,
+    },
+    Profile {
         name: "rn-huge",
-        props: &["C02", "C01"],
+        props: &["C02"],
         // one case costs minutes in the list-based model (70 000 queued messages): thorough tier only
         cases: |t| if t == Tier::Quick { 0 } else { 1 },
         new_world,
-        script: script_huge,
+        script: script_huge_u,
         nontrivial: |t| t.outs.iter().any(|o| o.starts_with("msgs ") && !o.starts_with("msgs 0 ")),
         keep: keep_cfg,
         fixed: None,
